@@ -431,6 +431,9 @@ func typeBase(e *Engine, t types.Type) string {
 func (st *State) callOut(fr *Frame, in ssa.Instruction, kind string, sig *types.Signature, args []Val, pos token.Pos) bool {
 	e := st.e
 	st.checkCallOutAllowed(fr, kind, pos)
+	for _, a := range args {
+		st.publish(a, "") // whatever is handed to foreign code is shared from now on
+	}
 	if _, ok := e.kindSigs[kind]; !ok {
 		e.kindSigs[kind] = sig
 	}
@@ -554,6 +557,10 @@ func (st *State) builtin(fr *Frame, in ssa.Instruction, b *ssa.Builtin, args []V
 		st.written[chanClosedName] = true
 	case "panic":
 		st.oblige("safety", "panic", e.curProps, "false", pos)
+	case "ssa:wrapnilchk":
+		// compiler-inserted nil check of a wrapper's receiver
+		st.checkNonNil(args[0].C[0], pos, "wrapper-receiver")
+		st.setResult(fr, in, args[0])
 	case "print", "println":
 	case "min", "max":
 		op := "<="
